@@ -125,13 +125,14 @@ void harness(void)
 			     "C04.write.long");
 		VERIF_ASSERT(g_app_ptr[k + 1] == target &&
 			     g_app_size[k + 1] == TLEN, "C04.write.long");
-		VERIF_ASSERT(g_app_ptr[k + 2] == NULL &&
-			     g_app_size[k + 2] == 512 - TLEN % 512,
-			     "C04.write.long");
+		if (TLEN % 512)
+			VERIF_ASSERT(g_app_ptr[k + 2] == NULL &&
+				     g_app_size[k + 2] == 512 - TLEN % 512,
+				     "C04.write.long");
 		/* sprintf log: 0 record name, 1 mode, 2 uid, 3 gid, 4 size */
 		VERIF_ASSERT(g_sp_kind[4] == SP_OCT_SP && g_sp_width[4] == 11 &&
 			     g_sp_val[4] == TLEN, "C04.write.long");
-		k += 3;
+		k += (TLEN % 512) ? 3 : 2;
 	}
 	if (LONGN) {
 		int base = LONGT ? 11 : 0;
@@ -142,13 +143,14 @@ void harness(void)
 			     "C04.write.long");
 		VERIF_ASSERT(g_app_ptr[k + 1] == ent.e.name &&
 			     g_app_size[k + 1] == NLEN, "C04.write.long");
-		VERIF_ASSERT(g_app_ptr[k + 2] == NULL &&
-			     g_app_size[k + 2] == 512 - NLEN % 512,
-			     "C04.write.long");
+		if (NLEN % 512)
+			VERIF_ASSERT(g_app_ptr[k + 2] == NULL &&
+				     g_app_size[k + 2] == 512 - NLEN % 512,
+				     "C04.write.long");
 		VERIF_ASSERT(g_sp_kind[base + 4] == SP_OCT_SP &&
 			     g_sp_width[base + 4] == 11 &&
 			     g_sp_val[base + 4] == NLEN, "C04.write.long");
-		k += 3;
+		k += (NLEN % 512) ? 3 : 2;
 	}
 	/* the real header */
 	VERIF_ASSERT(g_app_size[k] == 512 && g_app_ptr[k] != NULL,
